@@ -275,11 +275,13 @@ func (lh *WorkerLoop) onNewConsensusRound(prevBlock interfaces.Block, prevBlockP
 	lh.logger.ConsensusTrace("starting a new consensus round", nil)
 
 	lh.leanHelixTerm = leanhelixterm.NewLeanHelixTerm(ctx, lh.logger, lh.config, lh.state, lh.electionTrigger, lh.onCommit, prevBlock, prevBlockProofBytes, canBeFirstLeader)
-	lh.logger.Debug("onNewConsensusRound() Calling ConsumeCacheMessages for H=%d", lh.state.Height())
-	lh.filter.ConsumeCacheMessages(lh.leanHelixTerm)
+	// announce the round before its cached messages are processed: they may complete this round and start
+	// the next one from within ConsumeCacheMessages, which must not be reported before (or instead of) this one
 	if lh.onNewConsensusRoundCallback != nil {
-		lh.onNewConsensusRoundCallback(ctx, lh.state.Height(), prevBlock, canBeFirstLeader)
+		lh.onNewConsensusRoundCallback(ctx, current.Height(), prevBlock, canBeFirstLeader)
 	}
+	lh.logger.Debug("onNewConsensusRound() Calling ConsumeCacheMessages for H=%d", current.Height())
+	lh.filter.ConsumeCacheMessages(lh.leanHelixTerm)
 }
 
 func (lh *WorkerLoop) cleanupCurrentTerm() {
